@@ -1,4 +1,1318 @@
-"""Property oracles over implementation traces of programs (filled in below)."""
-ORACLES = {}
-ORACLES_PARAMS = {}
-ORACLES_EVOCMD = {}
+"""Property oracles over implementation traces of programs.
+
+Each oracle is a direct, model-independent statement of one property on what the real code did
+(written from the property text).  It returns a list of violated clauses `"tag: explanation"`.
+The oracles are used to find concrete failing inputs; they never establish a property."""
+from __future__ import annotations
+
+import math
+import re
+from fractions import Fraction
+
+from harness import gwl
+
+WL_OPS = {"aspirate", "dispense", "transfer", "distribute", "comment", "wash", "decon", "flush", "commit", "set_diti"}
+TOL = Fraction(1, 1 << 30)
+
+
+# --------------------------------------------------------------------------- helpers
+
+
+def flatF(a):
+    if a["shape"] == "scalar":
+        return [a["v"]]
+    if a["shape"] == "list":
+        return list(a["v"])
+    rows = a["v"]
+    if not rows:
+        return []
+    return [rows[r][c] for c in range(len(rows[0])) for r in range(len(rows))]
+
+
+def bcast(vs, n):
+    return vs * n if len(vs) == 1 else vs
+
+
+def spec_rows(spec):
+    return spec["vrows"] if spec["kind"] == "trough" else spec["rows"]
+
+
+def valid_well(spec, w):
+    if not isinstance(w, str) or len(w) < 3 or not ("A" <= w[0] <= "Z") or not w[1:].isdigit() or not w[1:].isascii():
+        return False
+    r, c = ord(w[0]) - 65, int(w[1:]) - 1
+    return r < spec_rows(spec) and 0 <= c < spec["cols"] and w == f"{w[0]}{c + 1:02d}"
+
+
+def real_index(spec, w):
+    r, c = ord(w[0]) - 65, int(w[1:]) - 1
+    return c if spec["kind"] == "trough" else r * spec["cols"] + c
+
+
+def dev_pos(dev, spec, w):
+    r, c = ord(w[0]) - 65, int(w[1:]) - 1
+    if spec["kind"] == "trough" and dev == "fluent":
+        return 1 + c
+    return 1 + c * spec_rows(spec) + r
+
+
+def num(x):
+    """case number -> Fraction | None (nan/inf/bad)"""
+    if isinstance(x, dict):
+        if "int" in x:
+            return Fraction(x["int"])
+        return None
+    if x in ("nan", "inf", "-inf"):
+        return None
+    return Fraction(x)
+
+
+def vols_of(st, k):
+    return [Fraction(v) for v in st["lw"][k]["vols"]]
+
+
+def nonfinite(st):
+    return any(v in ("nan", "inf", "-inf") for l in st["lw"] for v in l["vols"])
+
+
+def prev_lw(obs, i):
+    """labware observations before step i"""
+    if i == 0:
+        return [{"vols": x["vols"], "hlen": len(x["labels"]), "last": x["labels"][-1], "labels": x["labels"], "last_eq": True} for x in obs["initial"]]
+    return obs["steps"][i - 1]["lw"]
+
+
+def is_script(rec):
+    return rec.startswith("B;") and len(rec) > 2
+
+
+def triples_of(op):
+    sw, dw, vs = flatF(op["swells"]), flatF(op["dwells"]), flatF(op["vols"])
+    n = max(len(sw), len(dw), len(vs))
+    sw, dw, vs = bcast(sw, n), bcast(dw, n), bcast(vs, n)
+    if not (len(sw) == len(dw) == len(vs)):
+        return None
+    return list(zip(sw, dw, [Fraction(v) for v in vs]))
+
+
+def lw_args_ok(case, op):
+    """all well ids of a labware-addressing op exist"""
+    k = op["op"]
+    L = case["labware"]
+    if k in ("add", "remove", "aspirate", "dispense"):
+        return all(valid_well(L[op["lw"]], w) for w in flatF(op["wells"]))
+    if k == "transfer":
+        return all(valid_well(L[op["src"]], w) for w in flatF(op["swells"])) and all(valid_well(L[op["dst"]], w) for w in flatF(op["dwells"]))
+    if k == "distribute":
+        return all(valid_well(L[op["dst"]], w) for w in flatF(op["dwells"]))
+    return True
+
+
+# --------------------------------------------------------------------------- C02 / C04: shadow ledger
+
+
+def expected_events(case, op):
+    """list of (labware, flat index, signed volume) in application order for a successful call, or None if
+    the arguments are not of the simple well-formed kind the ledger speaks about"""
+    k = op["op"]
+    L = case["labware"]
+    if k in ("add", "remove", "aspirate", "dispense"):
+        ws = flatF(op["wells"])
+        vs = [num(v) for v in bcast(flatF(op["vols"]), len(ws))]
+        if len(vs) != len(ws) or any(v is None or v < 0 for v in vs) or not all(valid_well(L[op["lw"]], w) for w in ws):
+            return None
+        sign = 1 if k in ("add", "dispense") else -1
+        return [(op["lw"], real_index(L[op["lw"]], w), sign * v) for w, v in zip(ws, vs)]
+    if k == "transfer":
+        tr = triples_of(op)
+        if tr is None or not lw_args_ok(case, op) or any(v < 0 for _, _, v in tr):
+            return None
+        ev = []
+        for s, d, v in tr:
+            ev.append((op["src"], real_index(L[op["src"]], s), -v))
+            ev.append((op["dst"], real_index(L[op["dst"]], d), v))
+        return ev
+    if k == "distribute":
+        v = num(op["volume"])
+        dw = flatF(op["dwells"])
+        if v is None or v < 0 or not dw or not all(valid_well(L[op["dst"]], w) for w in dw) or L[op["src"]]["kind"] != "trough" \
+                or not (0 <= op["col"] < L[op["src"]]["cols"]):
+            return None
+        return [(op["src"], op["col"], -v * len(dw))] + [(op["dst"], real_index(L[op["dst"]], w), v) for w in dw]
+    return []
+
+
+def oracle_C02(case, obs):
+    bad = []
+    L = case["labware"]
+    for i, (op, st) in enumerate(zip(case["ops"], obs["steps"])):
+        if nonfinite(st):
+            bad.append(f"finite: a non-finite volume is stored after call {i} ({op['op']})")
+            break
+        for k, spec in enumerate(L):
+            vs = vols_of(st, k)
+            mx = Fraction(spec["max"])
+            if any(v < 0 for v in vs):
+                bad.append(f"negative: labware {spec['name']} has a negative volume after call {i} ({op['op']})")
+            before = [Fraction(v) for v in prev_lw(obs, i)[k]["vols"]]
+            for j, (a, b) in enumerate(zip(before, vs)):
+                if b > a and b > mx:
+                    bad.append(f"max: well {j} of {spec['name']} was raised above max_volume by call {i} ({op['op']})")
+                    break
+                if b < a and b < Fraction(spec["min"]) and st["exc"] is None:
+                    bad.append(f"min: well {j} of {spec['name']} was taken below min_volume by call {i} ({op['op']}) which returned normally")
+                    break
+        # exact limit behaviour of the direct and single-step operations
+        if op["op"] in ("add", "remove", "aspirate", "dispense"):
+            ev = expected_events(case, op)
+            if ev is None:
+                # includes +inf volumes: must be refused with the violation error unless refused earlier
+                vsx = bcast(flatF(op["vols"]), len(flatF(op["wells"])))
+                if st["exc"] is None:
+                    bad.append(f"reject: call {i} ({op['op']}) with invalid volumes/wells returned normally")
+                continue
+            k = op["lw"]
+            spec = L[k]
+            cur = [Fraction(v) for v in prev_lw(obs, i)[k]["vols"]]
+            want_exc = None
+            for (_, j, dv) in ev:
+                nv = cur[j] + dv
+                if dv > 0 and nv > Fraction(spec["max"]):
+                    want_exc = "VolumeOverflowError"
+                    break
+                if dv < 0 and nv < Fraction(spec["min"]):
+                    want_exc = "VolumeUnderflowError"
+                    break
+                if dv == 0 and op["op"] in ("add", "dispense") and nv > Fraction(spec["max"]):
+                    want_exc = "VolumeOverflowError"
+                    break
+                if dv == 0 and op["op"] in ("remove", "aspirate") and nv < Fraction(spec["min"]):
+                    want_exc = "VolumeUnderflowError"
+                    break
+                cur[j] = nv
+            if want_exc:
+                if st["exc"] != want_exc:
+                    bad.append(f"error-class: call {i} ({op['op']}) violates a limit but raised {st['exc']} instead of {want_exc}")
+                elif vols_of(st, k) != cur:
+                    bad.append(f"offending-unchanged: after the rejected call {i} ({op['op']}) the volumes are not those just before the offending well")
+            elif st["exc"] in ("VolumeOverflowError", "VolumeUnderflowError"):
+                bad.append(f"spurious: call {i} ({op['op']}) raised {st['exc']} although no limit is violated")
+    return bad[:6]
+
+
+def oracle_C04(case, obs):
+    bad = []
+    L = case["labware"]
+    for i, (op, st) in enumerate(zip(case["ops"], obs["steps"])):
+        if op["op"] not in ("add", "remove", "aspirate", "dispense", "transfer", "distribute"):
+            # no other call may change any volume
+            for k in range(len(L)):
+                if st["lw"][k]["vols"] != prev_lw(obs, i)[k]["vols"] and op["op"] not in ("evo_asp", "evo_disp"):
+                    bad.append(f"frame: call {i} ({op['op']}) changed the volumes of {L[k]['name']}")
+            continue
+        if st["exc"] is not None or nonfinite(st):
+            continue
+        ev = expected_events(case, op)
+        if ev is None:
+            continue
+        want = [[Fraction(v) for v in prev_lw(obs, i)[k]["vols"]] for k in range(len(L))]
+        for (k, j, dv) in ev:
+            want[k][j] += dv
+        for k in range(len(L)):
+            got = vols_of(st, k)
+            if got != want[k]:
+                diff = [j for j in range(len(got)) if got[j] != want[k][j]]
+                touched = {j for kk, j, _ in ev if kk == k}
+                tag = "ledger" if set(diff) <= touched else "frame"
+                bad.append(f"{tag}: after call {i} ({op['op']}) well {diff[0]} of {L[k]['name']} holds {got[diff[0]]} instead of {want[k][diff[0]]}")
+                break
+    return bad[:6]
+
+
+# --------------------------------------------------------------------------- C11: history
+
+
+def expected_label(op, st, case):
+    k = op["op"]
+    if k in ("add", "remove", "aspirate", "dispense"):
+        return op.get("label")
+    if k == "distribute":
+        return op.get("label", "")
+    if k == "transfer":
+        lab = op.get("label")
+        n_a = sum(1 for r in st["recs"] if r.startswith("A;"))
+        tr = triples_of(op) or []
+        extra = n_a - sum(1 for _, _, v in tr if v > 0)
+        if extra > 0:
+            return f"{lab} ({extra} LVH steps)" if lab else f"{extra} LVH steps"
+        return lab
+    return None
+
+
+def oracle_C11(case, obs):
+    bad = []
+    L = case["labware"]
+    for i, (op, st) in enumerate(zip(case["ops"], obs["steps"])):
+        before = prev_lw(obs, i)
+        k = op["op"]
+        for j in range(len(L)):
+            lb, la = before[j]["labels"], st["lw"][j]["labels"]
+            if k == "condense":
+                continue
+            if la[: len(lb)] != lb:
+                bad.append(f"prefix: call {i} ({k}) altered or dropped earlier history entries of {L[j]['name']}: {lb} -> {la}")
+        if st["exc"] is not None:
+            continue
+        part = []
+        if k in ("add", "remove", "aspirate", "dispense", "evo_asp", "evo_disp"):
+            part = [op["lw"]]
+            moved = True
+        elif k in ("transfer", "distribute"):
+            part = sorted({op["src"], op["dst"]})
+            moved = any(st["lw"][j]["vols"] != before[j]["vols"] for j in part) or any(r[:2] in ("A;", "R;") for r in st["recs"])
+            if k == "distribute":
+                v = num(op["volume"])
+                moved = v is not None and v > 0
+        else:
+            moved = False
+        for j in range(len(L)):
+            d = st["lw"][j]["hlen"] - before[j]["hlen"]
+            if k == "condense":
+                continue
+            if j in part and moved:
+                if d != 1:
+                    bad.append(f"one-entry: successful call {i} ({k}) added {d} history entries to {L[j]['name']}")
+                else:
+                    want = expected_label(op, st, case)
+                    if k in ("evo_asp", "evo_disp"):
+                        want = op.get("label")
+                    if st["lw"][j]["last"] != want:
+                        bad.append(f"label: call {i} ({k}) logged label {st['lw'][j]['last']!r} on {L[j]['name']}, expected {want!r}")
+                if not st["lw"][j]["last_eq"]:
+                    bad.append(f"newest: after call {i} ({k}) the newest history entry of {L[j]['name']} differs from its volumes")
+            elif j not in part and d != 0:
+                bad.append(f"foreign: call {i} ({k}) changed the history length of uninvolved labware {L[j]['name']}")
+            elif j in part and not moved and d not in (0, 1):
+                bad.append(f"one-entry: call {i} ({k}) that moved nothing changed the history of {L[j]['name']} by {d} entries")
+    if obs.get("mutated"):
+        bad.append(f"snapshot: an earlier history entry or an array obtained from `volumes` was changed later: {obs['mutated'][:3]}")
+    # report lists the same entries in the same order
+    fin = obs.get("final")
+    if fin:
+        for j, rep in enumerate(fin["report"]):
+            labels = [lab for lab, _ in fin["hist"][j]]
+            lines = rep.split("\n")
+            if lines[0] != L[j]["name"] and not L[j]["name"].startswith(lines[0]):
+                bad.append("report: does not start with the labware name")
+            want = [ln for lab in labels if lab for ln in lab.split("\n")]
+            namelines = L[j]["name"].count("\n") + 1
+            got = [ln for ln in lines[namelines:] if ln.strip() and not re.fullmatch(r"[\[\]\d\.\seE+\-]*", ln)]
+            if got != want:
+                bad.append(f"report: labels in the report {got[:4]} differ from the history labels {want[:4]}")
+            nblocks = sum(1 for ln in lines if ln.startswith("[["))
+            if nblocks != len(labels):
+                bad.append(f"report: {nblocks} state blocks for {len(labels)} history entries")
+    return bad[:6]
+
+
+# --------------------------------------------------------------------------- C05: ideal mixing
+
+
+def oracle_C05(case, obs):
+    bad = []
+    L = case["labware"]
+    # amounts per labware / well / component; None = well contains liquid of unknown composition
+    amt = []
+    vol = []
+    for x in obs["initial"]:
+        vs = [Fraction(v) for v in x["vols"]]
+        a = [dict() for _ in vs]
+        for name, ent in (x["comp"] or {}).items():
+            for i, f in ent:
+                a[i][name] = Fraction(f) * vs[i]
+        amt.append(a)
+        vol.append(vs)
+    # initial naming
+    for k, (spec, x) in enumerate(zip(L, obs["initial"])):
+        names = {}
+        for name, ent in (x["comp"] or {}).items():
+            for i, f in ent:
+                names.setdefault(i, []).append((name, f))
+        for i, v in enumerate(vol[k]):
+            if v > 0:
+                if len(names.get(i, [])) != 1 or names[i][0][1] != 1:
+                    bad.append(f"initial: non-empty well {i} of {spec['name']} does not start as 100 % of one component")
+            elif names.get(i):
+                bad.append(f"initial: empty well {i} of {spec['name']} has a component")
+        multi_row = spec["kind"] == "plate" and spec["rows"] > 1
+        multi_col_trough = spec["kind"] == "trough" and spec["cols"] > 1
+        given = spec.get("names") or {}
+        cn = spec.get("column_names")
+        default_names = []
+        for i, v in enumerate(vol[k]):
+            if v <= 0 or i not in names:
+                continue
+            nm = names[i][0][0]
+            if spec["kind"] == "plate":
+                w = f"{chr(65 + i // spec['cols'])}{i % spec['cols'] + 1:02d}"
+                g = given.get(w)
+                if g is not None:
+                    if nm != g:
+                        bad.append(f"naming: well {w} of {spec['name']} is named {nm!r} instead of the given {g!r}")
+                else:
+                    default_names.append(nm)
+                    if not multi_row and spec["cols"] == 1 and nm != spec["name"]:
+                        bad.append(f"naming: single-well labware {spec['name']} uses component name {nm!r}")
+            else:
+                g = None if cn is None else (cn if isinstance(cn, str) else cn[i])
+                if g is not None:
+                    if nm != g:
+                        bad.append(f"naming: column {i} of {spec['name']} is named {nm!r} instead of {g!r}")
+                else:
+                    default_names.append(nm)
+                    if spec["cols"] == 1 and nm != spec["name"]:
+                        bad.append(f"naming: single-well trough {spec['name']} uses component name {nm!r}")
+        if (multi_row or multi_col_trough) and len(set(default_names)) != len(default_names):
+            bad.append(f"naming: default component names of {spec['name']} are not pairwise distinct")
+    known = [[True] * len(v) for v in vol]
+    alive = True
+    lastcomp = [x["comp"] for x in obs["initial"]]
+    for i, (op, st) in enumerate(zip(case["ops"], obs["steps"])):
+        if st["exc"] is None and not nonfinite(st):
+            if op["op"] in ("transfer", "distribute"):
+                def total(comps, volsrc):
+                    t = {}
+                    for lw in {op["src"], op["dst"]}:
+                        vs = [Fraction(v) for v in volsrc[lw]["vols"]]
+                        for c, ent in (comps[lw] or {}).items():
+                            for j, f in ent:
+                                if f == f and abs(f) != float("inf"):
+                                    t[c] = t.get(c, 0) + Fraction(f) * vs[j]
+                    return t
+                newcomp = list(lastcomp)
+                for kk, comp in st["comp"].items():
+                    newcomp[int(kk)] = comp
+                b, a = total(lastcomp, prev_lw(obs, i)), total(newcomp, st["lw"])
+                for c in set(a) | set(b):
+                    if abs(a.get(c, 0) - b.get(c, 0)) > Fraction(1, 10 ** 6) * (1 + abs(b.get(c, 0))):
+                        bad.append(f"conservation: call {i} ({op['op']}) changed the total amount of {c!r} from {float(b.get(c, 0))} to {float(a.get(c, 0))}")
+                        break
+            if op["op"] in ("remove", "aspirate"):
+                comp = st["comp"].get(str(op["lw"]))
+                if comp is not None and comp != lastcomp[op["lw"]]:
+                    bad.append(f"removal-neutral: call {i} ({op['op']}) changed the composition of {L[op['lw']]['name']}")
+        for kk, comp in st["comp"].items():
+            lastcomp[int(kk)] = comp
+        # finiteness / range on everything observed
+        for kk, comp in st["comp"].items():
+            for name, ent in (comp or {}).items():
+                for j, f in ent:
+                    if f != f or abs(f) == float("inf"):
+                        bad.append(f"finite: fraction of {name!r} in well {j} of {L[int(kk)]['name']} is {f} after call {i} ({op['op']})")
+                    elif not (-1e-12 <= f <= 1 + 1e-12):
+                        bad.append(f"range: fraction of {name!r} in well {j} of {L[int(kk)]['name']} is {f} after call {i}")
+        if bad:
+            break
+        if not alive:
+            continue
+        k = op["op"]
+        if st["exc"] is not None:
+            alive = False  # partial effects: the shadow stops here
+            continue
+        before_total = None
+        if k in ("remove", "aspirate", "evo_asp"):
+            ev = expected_events(case, op) if k != "evo_asp" else None
+            if ev is None:
+                alive = False
+                continue
+            for (lw, j, dv) in ev:
+                old = vol[lw][j]
+                new = old + dv
+                if old != 0:
+                    for c in amt[lw][j]:
+                        amt[lw][j][c] = amt[lw][j][c] * new / old
+                vol[lw][j] = new
+        elif k in ("add", "dispense"):
+            ev = expected_events(case, op)
+            if ev is None:
+                alive = False
+                continue
+            comps = op.get("comps")
+            for n_, (lw, j, dv) in enumerate(ev):
+                c = comps[n_] if comps else None
+                vol[lw][j] += dv
+                if c is None:
+                    if dv > 0:
+                        known[lw][j] = False
+                else:
+                    for name, f in c.items():
+                        amt[lw][j][name] = amt[lw][j].get(name, 0) + Fraction(f) * dv
+                    if sum(Fraction(f) for f in c.values()) != 1 and dv > 0:
+                        known[lw][j] = False
+        elif k == "transfer":
+            tr = triples_of(op)
+            if tr is None or not lw_args_ok(case, op) or not exact_transfer(case, op):
+                alive = False
+                continue
+            # wells may be source and destination at once: replay in the order of the emitted records
+            for (si, di, v) in record_flows(case, op, st):
+                move(amt, vol, known, op["src"], si, op["dst"], di, v)
+        elif k == "distribute":
+            v = num(op["volume"])
+            dw = flatF(op["dwells"])
+            if v is None:
+                alive = False
+                continue
+            for w in dw:
+                move(amt, vol, known, op["src"], op["col"], op["dst"], real_index(L[op["dst"]], w), v)
+        elif k in ("evo_disp",):
+            alive = False
+            continue
+        # compare with the implementation where it was observed
+        for kk, comp in st["comp"].items():
+            lw = int(kk)
+            cmp_comp(bad, L[lw]["name"], comp, amt[lw], vol[lw], known[lw], f"after call {i} ({k})")
+        if before_total is not None:
+            # conservation as reported by the implementation (volume x fraction over all labware)
+            pass
+    if alive and obs.get("final") and not bad:
+        for lw, comp in enumerate(obs["final"]["comp"]):
+            cmp_comp(bad, L[lw]["name"], comp, amt[lw], vol[lw], known[lw], "at the end")
+    return bad[:6]
+
+
+def totals(amt):
+    t = {}
+    for a in amt:
+        for w in a:
+            for c, x in w.items():
+                t[c] = t.get(c, 0) + x
+    return t
+
+
+def move(amt, vol, known, ks, si, kd, di, v):
+    old = vol[ks][si]
+    if v == 0:
+        return
+    fr = {c: a / old for c, a in amt[ks][si].items()} if old != 0 else {}
+    src_known = known[ks][si]
+    for c in amt[ks][si]:
+        amt[ks][si][c] = amt[ks][si][c] * (old - v) / old
+    vol[ks][si] = old - v
+    for c, f in fr.items():
+        amt[kd][di][c] = amt[kd][di].get(c, 0) + f * v
+    vol[kd][di] += v
+    if not src_known:
+        known[kd][di] = False
+
+
+def cmp_comp(bad, name, comp, amt, vol, known, when):
+    got = {}
+    for c, ent in (comp or {}).items():
+        for j, f in ent:
+            got.setdefault(j, {})[c] = Fraction(f)
+    for j in range(len(vol)):
+        if vol[j] <= 0 or not known[j]:
+            continue
+        want = {c: a / vol[j] for c, a in amt[j].items() if a != 0}
+        g = got.get(j, {})
+        for c in set(want) | set(g):
+            if abs(want.get(c, 0) - g.get(c, 0)) > Fraction(1, 10 ** 9):
+                bad.append(f"mixing: fraction of {c!r} in well {j} of {name} is {float(g.get(c, 0))} {when}, ideal mixing gives {float(want.get(c, 0))}")
+                return
+        if known[j] and want and abs(sum(g.values()) - 1) > Fraction(1, 10 ** 9):
+            bad.append(f"sum: fractions in well {j} of {name} sum to {float(sum(g.values()))} {when}")
+            return
+
+
+def exact_transfer(case, op):
+    """all requested volumes (and hence all split steps) are multiples of 0.01: record volumes are exact"""
+    tr = triples_of(op) or []
+    mv = Fraction(case["wl"]["max_volume"])
+    return all((v * 100).denominator == 1 for _, _, v in tr) and (mv * 100).denominator == 1
+
+
+def record_flows(case, op, st):
+    """(source real index, destination real index, volume) per A/D pair of a transfer, in emission order"""
+    L = case["labware"]
+    racks = {s["name"]: gwl.Rack(s["name"], s["kind"], 1 if s["kind"] == "trough" else s["rows"], s["cols"], s.get("vrows") if s["kind"] == "trough" else None,
+                                 Fraction(0), Fraction(0), [Fraction(0)] * ((1 if s["kind"] == "trough" else s["rows"]) * s["cols"]), None) for s in L}
+    flows = []
+    recs = st["recs"]
+    i = 0
+    while i < len(recs):
+        if recs[i].startswith("A;") and i + 1 < len(recs) and recs[i + 1].startswith("D;"):
+            a, d = recs[i].split(";"), recs[i + 1].split(";")
+            si = racks[L[op["src"]]["name"]].real_index(case["dev"], int(a[4]))
+            di = racks[L[op["dst"]]["name"]].real_index(case["dev"], int(d[4]))
+            flows.append((si, di, Fraction(a[6])))
+            i += 2
+        else:
+            i += 1
+    return flows
+
+
+# --------------------------------------------------------------------------- C06 / C07: transfer structure
+
+
+def oracle_C06(case, obs):
+    bad = []
+    L = case["labware"]
+    mv = Fraction(case["wl"]["max_volume"])
+    for i, (op, st) in enumerate(zip(case["ops"], obs["steps"])):
+        k = op["op"]
+        if k == "transfer":
+            tr = triples_of(op)
+            if tr is None:
+                continue
+            if case["wl"]["auto_split"]:
+                if st["exc"] == "InvalidOperationError":
+                    bad.append(f"never-refused: call {i}: an automatically split transfer raised InvalidOperationError")
+                if st["exc"] is None and lw_args_ok(case, op):
+                    # pairs per (source position, destination position)
+                    pairs = {}
+                    recs = st["recs"]
+                    for a, d in zip(recs, recs[1:]):
+                        if a.startswith("A;") and d.startswith("D;"):
+                            fa, fd = a.split(";"), d.split(";")
+                            pairs.setdefault((int(fa[4]), int(fd[4])), []).append(Fraction(fa[6]))
+                    req = {}
+                    for s, d, v in tr:
+                        key = (dev_pos(case["dev"], L[op["src"]], s), dev_pos(case["dev"], L[op["dst"]], d))
+                        req.setdefault(key, []).append(v)
+                    for key, vs in req.items():
+                        want_n = sum(max(1, math.ceil(v / mv)) for v in vs if v > 0)
+                        got = pairs.get(key, [])
+                        if len(got) != want_n:
+                            bad.append(f"count: call {i}: {len(got)} aspirate/dispense pairs for requested volumes {[str(v) for v in vs]} with max_volume {mv}; expected {want_n}")
+                        if any(not (0 <= g <= mv + Fraction(1, 200)) for g in got):
+                            bad.append(f"bounds: call {i}: a step outside (0, max_volume]: {[str(g) for g in got]}")
+                        if abs(sum(got) - sum(vs)) > Fraction(len(got), 200):
+                            bad.append(f"sum: call {i}: pairs add up to {sum(got)} instead of {sum(vs)}")
+                    if set(pairs) - set(req):
+                        bad.append(f"count: call {i}: pairs between wells that were not requested")
+            else:
+                if st["exc"] is None and any(v > mv for _, _, v in tr):
+                    bad.append(f"no-split: call {i}: step above max_volume accepted with auto_split disabled")
+        if k in ("reagent", "distribute") and st["exc"] is None:
+            for r in st["recs"]:
+                if r.startswith("R;"):
+                    f = r.split(";")
+                    v, m = Fraction(f[11]), int(f[14])
+                    asked = op.get("multi_disp", 1)
+                    if v > 0 and m * v > mv:
+                        bad.append(f"multi-disp: call {i}: {m} multi-dispenses of {v} exceed max_volume {mv}")
+                    if asked * v <= mv and m != asked:
+                        bad.append(f"multi-disp: call {i}: multi_disp reduced from {asked} to {m} although it fits")
+                    if asked * v > mv and v > 0 and m != math.floor(mv / v):
+                        bad.append(f"multi-disp: call {i}: multi_disp {m}, expected floor(max_volume/volume) = {math.floor(mv / v)}")
+    return bad[:6]
+
+
+def tip_action_record(op, case):
+    ws = op.get("ws", 1)
+    if ws == "reuse":
+        return None
+    if ws == "flush":
+        return "F;"
+    if case["wl"]["diti_mode"]:
+        return "W;"
+    if isinstance(ws, int) and 1 <= ws <= 4:
+        return f"W{ws};"
+    return "?"
+
+
+def oracle_C07(case, obs):
+    bad = []
+    L = case["labware"]
+    mv = Fraction(case["wl"]["max_volume"])
+    for i, (op, st) in enumerate(zip(case["ops"], obs["steps"])):
+        if op["op"] != "transfer" or case["dev"] == "base":
+            continue
+        tr = triples_of(op)
+        vs_raw = flatF(op["vols"])
+        if tr is None:
+            if st["exc"] is None:
+                bad.append(f"lengths: call {i}: incompatible argument lengths accepted")
+            elif st["recs"]:
+                bad.append(f"lengths: call {i}: rejected for incompatible lengths but left records")
+            continue
+        if any(v < 0 for _, _, v in tr):
+            if st["exc"] is None:
+                bad.append(f"negative: call {i}: negative volume accepted (silently dropped?)")
+            elif st["recs"]:
+                bad.append(f"negative: call {i}: rejected negative volume but left records")
+            continue
+        if st["exc"] is not None or not lw_args_ok(case, op):
+            continue
+        recs = list(st["recs"])
+        # optional comment lines first
+        lab = op.get("label")
+        ncomment = 0
+        while ncomment < len(recs) and recs[ncomment].startswith("C;"):
+            ncomment += 1
+        if lab:
+            want_c = [f"C;{ln.strip()}" for ln in lab.split("\n") if ln.strip()]
+            if recs[:ncomment] != want_c:
+                bad.append(f"comment: call {i}: comment records {recs[:ncomment]} for label {lab!r}")
+        elif ncomment:
+            bad.append(f"comment: call {i}: comment records without a label")
+        body = recs[ncomment:]
+        ta = tip_action_record(op, case)
+        j = 0
+        flows = {}
+        nsplit_groups_open = False
+        while j < len(body):
+            r = body[j]
+            if r.startswith("A;"):
+                if j + 1 >= len(body) or not body[j + 1].startswith("D;"):
+                    bad.append(f"pairing: call {i}: aspirate record not immediately followed by a dispense record")
+                    break
+                fa, fd = r.split(";"), body[j + 1].split(";")
+                if (fa[6], fa[7], fa[9]) != (fd[6], fd[7], fd[9]):
+                    bad.append(f"pairing: call {i}: aspirate and dispense differ in volume / liquid class / tip mask: {r} | {body[j + 1]}")
+                if fa[1] != L[op["src"]]["name"] or fd[1] != L[op["dst"]]["name"]:
+                    bad.append(f"pairing: call {i}: records name racks {fa[1]!r}/{fd[1]!r}")
+                flows.setdefault((int(fa[4]), int(fd[4])), []).append(Fraction(fa[6]))
+                j += 2
+                if ta is None:
+                    if j < len(body) and (body[j].startswith("W") or body[j] == "F;"):
+                        bad.append(f"tip-action: call {i}: wash/flush record although wash_scheme is 'reuse'")
+                else:
+                    if j >= len(body) or body[j] != ta:
+                        bad.append(f"tip-action: call {i}: expected {ta} after the pair, found {body[j] if j < len(body) else None}")
+                    else:
+                        j += 1
+            elif r == "B;":
+                j += 1
+            else:
+                bad.append(f"grammar: call {i}: unexpected record {r!r} inside a transfer")
+                break
+        req = {}
+        for s, d, v in tr:
+            key = (dev_pos(case["dev"], L[op["src"]], s), dev_pos(case["dev"], L[op["dst"]], d))
+            req[key] = req.get(key, 0) + v
+        for key in set(req) | set(flows):
+            got = sum(flows.get(key, []))
+            if abs(got - req.get(key, 0)) > Fraction(len(flows.get(key, [])), 200):
+                bad.append(f"flows: call {i}: {got} moved between positions {key} but {req.get(key, 0)} requested")
+        # break records: a column group in which a volume had to be split is closed by B;, others contain none
+        pb = op.get("pb", "auto")
+        if pb == "auto":
+            pb = "destination" if L[op["src"]]["kind"] == "trough" and L[op["dst"]]["kind"] != "trough" else "source"
+        side = 0 if pb == "source" else 1
+        groups = {}
+        for t in tr:
+            groups.setdefault(t[side][1:], []).append(t)
+        pos = 0
+        for key in sorted(groups):
+            g = groups[key]
+            if case["wl"]["auto_split"]:
+                npairs = sum(max(1, math.ceil(v / mv)) for _, _, v in g if v > 0)
+                gsplit = any(v > 0 and math.ceil(v / mv) > 1 for _, _, v in g)
+            else:
+                npairs = sum(1 for _, _, v in g if v > 0)
+                gsplit = False
+            seen = 0
+            while pos < len(body) and seen < npairs:
+                if body[pos].startswith("A;"):
+                    seen += 1
+                elif body[pos] == "B;" and not gsplit:
+                    bad.append(f"break: call {i}: break record inside column group {key} although none of its volumes was split")
+                pos += 1
+            # skip the dispense / tip action of the last pair
+            while pos < len(body) and not body[pos].startswith("A;") and body[pos] != "B;":
+                pos += 1
+            if gsplit:
+                if pos >= len(body) or body[pos] != "B;":
+                    bad.append(f"break: call {i}: column group {key} had a split volume but is not closed by a break record")
+                else:
+                    pos += 1
+            elif pos < len(body) and body[pos] == "B;":
+                bad.append(f"break: call {i}: break record after column group {key} although none of its volumes was split")
+    return bad[:6]
+
+
+# --------------------------------------------------------------------------- C01 / C03: replay
+
+
+def apply_external(robot, case, obs, i, op):
+    """direct labware calls are not part of the worklist: mirror their tracked effect in the replayed state"""
+    k = op["lw"]
+    rack = robot.racks[case["labware"][k]["name"]]
+    before = [Fraction(v) for v in prev_lw(obs, i)[k]["vols"]]
+    after = vols_of(obs["steps"][i], k)
+    comps = op.get("comps")
+    ws = flatF(op["wells"]) if "wells" in op else []
+    for j, (a, b) in enumerate(zip(before, after)):
+        if b < a:
+            robot.take(rack, j, a - b, require_min=False)
+        elif b > a:
+            robot.put(rack, j, b - a, None, False)
+    return
+
+
+def dpos_of(case, op):
+    L = case["labware"]
+    return [dev_pos(case["dev"], L[op["dst"]], w) for w in flatF(op["dwells"])]
+
+
+def oracle_C01(case, obs):
+    if case["dev"] == "base":
+        return []
+    bad = []
+    L = case["labware"]
+    names = [s["name"] for s in L]
+    if len(set(names)) != len(names):
+        return []
+    try:
+        robot = gwl.Robot(case["dev"], gwl.racks_from_case(case, obs["initial"]))
+    except gwl.GwlError:
+        return []
+    comp_ok = True
+    for i, (op, st) in enumerate(zip(case["ops"], obs["steps"])):
+        k = op["op"]
+        if st["exc"] is not None or nonfinite(st):
+            break
+        if k in ("add", "remove", "condense"):
+            if k != "condense":
+                apply_external(robot, case, obs, i, op)
+                comp_ok = False
+            continue
+        if k not in WL_OPS:
+            break
+        if k in ("dispense",):
+            comp_ok = False
+        if k == "aspirate":
+            comp_ok = comp_ok  # a stand-alone aspirate does not change compositions
+        # addressing: the records name the rack and device-specific number of the wells the call named
+        if k in ("aspirate", "dispense"):
+            ws = flatF(op["wells"])
+            vs = [num(v) for v in bcast(flatF(op["vols"]), len(ws))]
+            want = [(L[op["lw"]]["name"], dev_pos(case["dev"], L[op["lw"]], w)) for w, v in zip(ws, vs) if v is not None and v > 0]
+            got = [(r.split(";")[1], int(r.split(";")[4])) for r in st["recs"] if r[:2] in ("A;", "D;")]
+            if got != want:
+                bad.append(f"addressing: call {i} ({k}) emitted records for {got}, the call named {want}")
+        src_bad = False
+        if k == "distribute":
+            for r in st["recs"]:
+                if r.startswith("R;"):
+                    f = r.split(";")
+                    src = L[op["src"]]
+                    try:
+                        idx = {robot.racks[f[1]].real_index(case["dev"], p) for p in range(int(f[4]), int(f[5]) + 1)}
+                    except gwl.GwlError as e:
+                        idx = {"error"}
+                    if idx != {op["col"]} and len(set(dpos_of(case, op))) == len(dpos_of(case, op)):
+                        src_bad = True
+                        bad.append(f"distribute-source: call {i}: source range {f[4]}..{f[5]} of the R record does not address column {op['col']} of trough {src['name']} in {case['dev']} numbering")
+                    dpos = sorted(dev_pos(case["dev"], L[op["dst"]], w) for w in flatF(op["dwells"]))
+                    rng = [p for p in range(int(f[9]), int(f[10]) + 1) if str(p) not in f[16:]]
+                    if len(set(dpos)) != len(dpos):
+                        src_bad = True  # outside the property's domain (positions not pairwise distinct)
+                    elif rng != dpos:
+                        bad.append(f"addressing: call {i}: R record addresses destination positions {rng}, the call named {dpos}")
+        if src_bad:
+            # the interpreter cannot execute this record; mirror the tracked effect instead
+            for kk in {op["src"], op["dst"]}:
+                rack = robot.racks[L[kk]["name"]]
+                rack.vol = vols_of(st, kk)
+            comp_ok = False
+            continue
+        try:
+            for r in st["recs"]:
+                if is_script(r):
+                    raise gwl.GwlError("script command")
+                robot.execute(r)
+        except gwl.GwlError as e:
+            bad.append(f"replay: call {i} ({k}): {e}")
+            break
+        for kk in range(len(L)):
+            rack = robot.racks[L[kk]["name"]]
+            tracked = vols_of(st, kk)
+            for j, (a, b) in enumerate(zip(rack.vol, tracked)):
+                if abs(a - b) > Fraction(rack.touch[j], 200):
+                    bad.append(f"volume: after call {i} ({k}) the replayed worklist gives well {j} of {L[kk]['name']} {float(a)} but the Labware reports {float(b)}")
+                    break
+        if any(not b.startswith("distribute-source") for b in bad):
+            break
+    # compositions: compare at the end when every record volume was exact and all liquid is of known origin
+    if not any(not b.startswith("distribute-source") for b in bad) and comp_ok and obs.get("final") and all(s["exc"] is None for s in obs["steps"]) and all(o["op"] in WL_OPS for o in case["ops"]):
+        exact = True
+        for op, st in zip(case["ops"], obs["steps"]):
+            if op["op"] == "transfer":
+                tr = triples_of(op) or []
+                if any((v * 100).denominator != 1 for _, _, v in tr):
+                    exact = False
+                mv = Fraction(case["wl"]["max_volume"])
+                if any(v >= mv for _, _, v in tr) and (mv * 100).denominator != 1:
+                    exact = False
+            if op["op"] == "distribute":
+                v = num(op["volume"])
+                if v is None:
+                    exact = False
+        if exact:
+            for kk, comp in enumerate(obs["final"]["comp"]):
+                rack = robot.racks[L[kk]["name"]]
+                got = {}
+                for c, ent in (comp or {}).items():
+                    for j, f in ent:
+                        got.setdefault(j, {})[c] = Fraction(f)
+                for j in range(len(rack.vol)):
+                    if rack.vol[j] <= 0 or not rack.known[j]:
+                        continue
+                    want = rack.fractions(j)
+                    g = got.get(j, {})
+                    for c in set(want) | set(g):
+                        if abs(want.get(c, 0) - g.get(c, 0)) > Fraction(1, 10 ** 9):
+                            bad.append(f"composition: replayed worklist gives well {j} of {L[kk]['name']} {float(want.get(c, 0))} of {c!r}, the Labware reports {float(g.get(c, 0))}")
+                            break
+                    if bad:
+                        break
+    return bad[:6]
+
+
+def oracle_C03(case, obs):
+    if case["dev"] == "base":
+        return []
+    bad = []
+    L = case["labware"]
+    names = [s["name"] for s in L]
+    if len(set(names)) != len(names):
+        return []
+    mv = Fraction(case["wl"]["max_volume"])
+    try:
+        robot = gwl.Robot(case["dev"], gwl.racks_from_case(case, obs["initial"]), check_limits=True)
+    except gwl.GwlError:
+        return []
+    for i, (op, st) in enumerate(zip(case["ops"], obs["steps"])):
+        k = op["op"]
+        if nonfinite(st):
+            break
+        if st.get("shrunk"):
+            bad.append(f"worklist: call {i} ({k}) removed records from the worklist")
+        for r in st["recs"]:
+            if r[:2] in ("A;", "D;"):
+                v = Fraction(r.split(";")[6])
+                if v > mv + Fraction(1, 200):
+                    bad.append(f"oversized: call {i} ({k}) emitted a pipetting step of {v} above max_volume {mv}")
+        if k == "transfer" and not case["wl"]["auto_split"]:
+            tr = triples_of(op)
+            if tr and st["exc"] is None and any(v > mv for _, _, v in tr):
+                bad.append(f"oversized: call {i}: step above max_volume accepted without auto_split")
+        if k in ("add", "remove"):
+            apply_external(robot, case, obs, i, op)
+            continue
+        if k in ("evo_asp", "evo_disp"):
+            # script commands address grid/site, not rack labels: checked by C13; mirror the tracking here
+            apply_external(robot, case, obs, i, op)
+            continue
+        if k == "distribute" and case["dev"] == "fluent" and L[op["src"]]["kind"] == "trough" and L[op["src"]]["vrows"] > 1:
+            # F12: the source range is not executable under Fluent numbering; mirror the tracking
+            for kk in {op["src"], op["dst"]}:
+                robot.racks[L[kk]["name"]].vol = vols_of(st, kk)
+            continue
+        try:
+            for r in st["recs"]:
+                if is_script(r):
+                    continue
+                robot.execute(r)
+        except gwl.GwlError as e:
+            bad.append(f"replay: after call {i} ({k}{', raised ' + st['exc'] if st['exc'] else ''}) the accumulated worklist is not executable: {e}")
+            break
+        if st["exc"] is not None:
+            # the worklist as it would be written now must still be safe (checked above); the tracked state may
+            # be ahead of the records (partial effects) - resynchronise for the calls that follow
+            for kk in range(len(L)):
+                rack = robot.racks[L[kk]["name"]]
+                rack.vol = vols_of(st, kk)
+    return bad[:6]
+
+
+# --------------------------------------------------------------------------- C09 / C10: records carry their arguments
+
+
+def tip_mask_of(t):
+    """expected mask field text for a tip argument, or 'reject'"""
+    def bit(e):
+        if e[0] == "i" and isinstance(e[1], int) and 1 <= e[1] <= 8:
+            return 1 << (e[1] - 1)
+        if e[0] == "t":
+            return 1 << (e[1] - 1)
+        return None
+    if "one" in t:
+        e = t["one"]
+        if e[0] == "any":
+            return ""
+        b = bit(e)
+        return "reject" if b is None else str(b)
+    m = 0
+    for e in t["many"]:
+        b = bit(e)
+        if b is None:
+            return "reject"
+        m |= b
+    return str(m)
+
+
+def text_bad(t, limit):
+    return isinstance(t, dict) or ";" in t or (limit and len(t) > 32)
+
+
+def oracle_C09(case, obs):
+    bad = []
+    mv = Fraction(case["wl"]["max_volume"])
+    diti = case["wl"]["diti_mode"]
+    all_recs = []
+    for i, (op, st) in enumerate(zip(case["ops"], obs["steps"])):
+        k = op["op"]
+        recs = st["recs"]
+        before = list(all_recs)
+        all_recs += recs
+        for r in recs:
+            if is_script(r):
+                continue
+            try:
+                gwl.parse_record(r)
+            except gwl.GwlError as e:
+                bad.append(f"grammar: call {i} ({k}) emitted a malformed record {r!r}: {e}")
+        if st["exc"] is not None and recs and k in ("aspirate_well", "dispense_well", "reagent", "comment", "wash", "decon", "flush", "commit", "set_diti"):
+            bad.append(f"append-nothing: call {i} ({k}) raised {st['exc']} but appended {recs}")
+        if k in ("aspirate_well", "dispense_well"):
+            kw = dict({"liquid_class": "", "tip": {"one": ["any"]}, "rack_id": "", "tube_id": "", "rack_type": "", "forced_rack_type": ""}, **(op.get("kw") or {}))
+            v = num(op["volume"])
+            reasons = []
+            if text_bad(op["rack_label"], True):
+                reasons.append("rack_label")
+            if isinstance(op["position"], dict) or op["position"] < 0:
+                reasons.append("position")
+            if v is None or v < 0 or v > 7158278:
+                reasons.append("volume")
+            elif v > mv:
+                reasons.append("volume>max_volume")
+            if text_bad(kw["liquid_class"], False):
+                reasons.append("liquid_class")
+            mask = tip_mask_of(kw["tip"])
+            if mask == "reject":
+                reasons.append("tip")
+            for f, lim in (("rack_id", True), ("tube_id", False), ("rack_type", True), ("forced_rack_type", True)):
+                if text_bad(kw[f], lim):
+                    reasons.append(f)
+            if reasons:
+                if st["exc"] is None:
+                    bad.append(f"reject: call {i} ({k}) with unrepresentable {reasons[0]} was accepted: {recs}")
+                continue
+            if st["exc"] is not None:
+                bad.append(f"accept: call {i} ({k}) with representable arguments raised {st['exc']}")
+                continue
+            if len(recs) != 1:
+                bad.append(f"one-record: call {i} ({k}) appended {len(recs)} records")
+                continue
+            try:
+                d = gwl.parse_record(recs[0])
+            except gwl.GwlError:
+                continue
+            want = {"type": "A" if k == "aspirate_well" else "D", "rack_label": op["rack_label"], "rack_id": kw["rack_id"], "rack_type": kw["rack_type"],
+                    "position": str(op["position"]), "tube_id": kw["tube_id"], "liquid_class": kw["liquid_class"], "tip": mask,
+                    "forced_rack_type": kw["forced_rack_type"], "tip_type": ""}
+            for f, w in want.items():
+                if d.get(f) != w:
+                    bad.append(f"field: call {i} ({k}): field {f} decodes to {d.get(f)!r}, argument was {w!r}")
+            if abs(Fraction(d["volume"]) - v) > Fraction(1, 200):
+                bad.append(f"field: call {i} ({k}): volume {d['volume']} for argument {v}")
+        elif k == "reagent":
+            v = num(op["volume"])
+            reasons = []
+            if op.get("direction", "left_to_right") not in ("left_to_right", "right_to_left"):
+                reasons.append("direction")
+            for f in ("src_start", "src_end", "dst_start", "dst_end"):
+                if isinstance(op[f], dict) or op[f] < 0:
+                    reasons.append(f)
+            ex = op.get("exclude") or []
+            if not reasons and any(not (op["dst_start"] <= x <= op["dst_end"]) for x in ex):
+                reasons.append("excluded well")
+            for f, lim in (("src_label", True), ("dst_label", True), ("src_rack_id", True), ("src_rack_type", True), ("dst_rack_id", True), ("dst_rack_type", True), ("liquid_class", False)):
+                if text_bad(op.get(f, ""), lim):
+                    reasons.append(f)
+            if v is None or v < 0 or v > 7158278:
+                reasons.append("volume")
+            elif v > mv:
+                reasons.append("volume>max_volume")
+            if reasons:
+                if st["exc"] is None:
+                    bad.append(f"reject: call {i} (reagent_distribution) with unrepresentable {reasons[0]} was accepted: {recs}")
+                continue
+            if st["exc"] is not None:
+                bad.append(f"accept: call {i} (reagent_distribution) with representable arguments raised {st['exc']}")
+                continue
+            if len(recs) != 1:
+                bad.append(f"one-record: call {i} (reagent_distribution) appended {len(recs)} records")
+                continue
+            try:
+                d = gwl.parse_record(recs[0])
+            except gwl.GwlError:
+                continue
+            md = op.get("multi_disp", 1)
+            if md * v > mv and v > 0:
+                md = math.floor(mv / v)
+            want = {"src_label": op["src_label"], "src_id": op.get("src_rack_id", ""), "src_type": op.get("src_rack_type", ""),
+                    "src_start": str(op["src_start"]), "src_end": str(op["src_end"]), "dst_label": op["dst_label"],
+                    "dst_id": op.get("dst_rack_id", ""), "dst_type": op.get("dst_rack_type", ""), "dst_start": str(op["dst_start"]),
+                    "dst_end": str(op["dst_end"]), "liquid_class": op.get("liquid_class", ""), "diti_reuse": str(op.get("diti_reuse", 1)),
+                    "multi_disp": str(md), "direction": "0" if op.get("direction", "left_to_right") == "left_to_right" else "1",
+                    "exclude": [str(x) for x in sorted(ex)]}
+            for f, w in want.items():
+                if d.get(f) != w:
+                    bad.append(f"field: call {i} (reagent_distribution): field {f} decodes to {d.get(f)!r}, argument was {w!r}")
+            if Fraction(d["volume"]) != v:
+                bad.append(f"field: call {i} (reagent_distribution): volume {d['volume']} for argument {v}")
+        elif k == "comment":
+            t = op["text"]
+            if t and ";" in t:
+                if st["exc"] is None:
+                    bad.append(f"reject: call {i}: comment with a separator accepted")
+            elif st["exc"] is not None:
+                bad.append(f"accept: call {i}: comment raised {st['exc']}")
+            else:
+                want = [f"C;{ln.strip()}" for ln in (t or "").split("\n") if ln.strip()]
+                if recs != want:
+                    bad.append(f"field: call {i}: comment {t!r} gave {recs}")
+        elif k == "wash":
+            s = op.get("scheme", 1)
+            if diti:
+                if recs != ["W;"] or st["exc"]:
+                    bad.append(f"field: call {i}: wash in DiTi mode gave {recs} / {st['exc']}")
+            elif isinstance(s, int) and 1 <= s <= 4:
+                if recs != [f"W{s};"]:
+                    bad.append(f"field: call {i}: wash({s}) gave {recs} / {st['exc']}")
+            elif st["exc"] is None:
+                bad.append(f"reject: call {i}: invalid wash scheme {s!r} accepted: {recs}")
+        elif k == "decon":
+            if diti:
+                if st["exc"] is None:
+                    bad.append(f"reject: call {i}: decontamination wash accepted in DiTi mode")
+            elif recs != ["WD;"]:
+                bad.append(f"field: call {i}: decontaminate gave {recs} / {st['exc']}")
+        elif k == "flush":
+            if recs != ["F;"]:
+                bad.append(f"field: call {i}: flush gave {recs}")
+        elif k == "commit":
+            if recs != ["B;"]:
+                bad.append(f"field: call {i}: commit gave {recs}")
+        elif k == "set_diti":
+            allowed = not before or before[-1].split(";")[0] == "B"
+            if allowed:
+                if recs != [f"S;{op['i']}"]:
+                    bad.append(f"field: call {i}: set_diti gave {recs} / {st['exc']}")
+            elif st["exc"] is None:
+                bad.append(f"reject: call {i}: DiTi type switch accepted after {before[-1]!r}")
+        elif k in ("aspirate", "dispense", "transfer") and st["exc"] is None:
+            # keyword pass-through: every A/D record carries the given liquid class / ids / mask
+            kw = dict({"liquid_class": "", "tip": {"one": ["any"]}, "rack_id": "", "tube_id": "", "rack_type": "", "forced_rack_type": ""}, **(op.get("kw") or {}))
+            if any(isinstance(kw[f], dict) for f in kw if f != "tip"):
+                continue
+            mask = tip_mask_of(kw["tip"])
+            for r in recs:
+                if r[:2] in ("A;", "D;"):
+                    try:
+                        d = gwl.parse_record(r)
+                    except gwl.GwlError:
+                        continue
+                    for f, w in (("liquid_class", kw["liquid_class"]), ("rack_id", kw["rack_id"]), ("tube_id", kw["tube_id"]),
+                                 ("rack_type", kw["rack_type"]), ("forced_rack_type", kw["forced_rack_type"]), ("tip", mask)):
+                        if d.get(f) != w:
+                            bad.append(f"pass-through: call {i} ({k}): field {f} is {d.get(f)!r}, keyword argument was {w!r}")
+                            break
+    return bad[:6]
+
+
+def oracle_C10(case, obs):
+    bad = []
+    for i, (op, st) in enumerate(zip(case["ops"], obs["steps"])):
+        k = op["op"]
+        if k in ("aspirate_well", "dispense_well", "aspirate", "dispense", "transfer"):
+            kw = op.get("kw") or {}
+            if "tip" not in kw:
+                continue
+            mask = tip_mask_of(kw["tip"])
+            ad = [r for r in st["recs"] if r[:2] in ("A;", "D;")]
+            if mask == "reject":
+                if ad and k in ("aspirate_well", "dispense_well"):
+                    bad.append(f"reject: call {i} ({k}) with invalid tip {kw['tip']} appended {ad}")
+                if st["exc"] is None and (k in ("aspirate_well", "dispense_well") or ad):
+                    bad.append(f"reject: call {i} ({k}) with invalid tip {kw['tip']} was accepted")
+                continue
+            for r in ad:
+                if r.split(";")[9] != mask:
+                    bad.append(f"mask: call {i} ({k}): tip {kw['tip']} emitted as {r.split(';')[9]!r}, expected {mask!r}")
+                    break
+            if k == "transfer":
+                for a, d in zip(ad[::2], ad[1::2]):
+                    if a.split(";")[9] != d.split(";")[9]:
+                        bad.append(f"pair: call {i}: aspirate/dispense of a pair carry different masks")
+        if k in ("evo_asp", "evo_disp", "evo_wash"):
+            tips = op["tips"] if k != "evo_wash" else op["args"]["tips"]
+            bits = []
+            ok = True
+            for e in tips:
+                if e[0] == "i" and 1 <= e[1] <= 8:
+                    bits.append(e[1] - 1)
+                elif e[0] == "t":
+                    bits.append(e[1] - 1)
+                else:
+                    ok = False
+            cmds = [r for r in st["recs"] if is_script(r)]
+            if not ok:
+                if cmds:
+                    bad.append(f"reject: call {i} ({k}) with invalid tips {tips} emitted {cmds}")
+                continue
+            for c in cmds:
+                m = re.match(r"B;\w+\((-?\d+),", c)
+                want = 0
+                for b in bits:
+                    want |= 1 << b
+                if not m or int(m.group(1)) != want:
+                    bad.append(f"mask: call {i} ({k}): tips {tips} emitted as mask {m.group(1) if m else None}, expected {want}")
+    return bad[:6]
+
+
+# --------------------------------------------------------------------------- C13: EVO script commands
+
+
+def decode_cmd(cmd):
+    m = re.fullmatch(r'B;(Aspirate|Dispense)\((-?\d+),"([^"]*)",(.*),(\d+),(\d+),1,"([^"]*)",0,(-?\d+)\);', cmd)
+    if not m:
+        return None
+    kind, mask, lc, vols, grid, site, sel, arm = m.groups()
+    slots = vols.split(",")
+    if len(slots) != 12:
+        return None
+    tipvols = []
+    for s in slots:
+        s = s.strip('"')
+        tipvols.append(Fraction(s))
+    return {"kind": kind, "mask": int(mask), "lc": lc, "vols": tipvols, "grid": int(grid), "site": int(site), "sel": sel, "arm": int(arm)}
+
+
+def oracle_C13(case, obs):
+    from harness.suites.pure import decode_selection
+
+    bad = []
+    L = case["labware"]
+    mv = Fraction(case["wl"]["max_volume"])
+    for i, (op, st) in enumerate(zip(case["ops"], obs["steps"])):
+        k = op["op"]
+        if k == "evo_wash":
+            a = op["args"]
+            cmds = [r for r in st["recs"] if is_script(r)]
+            def rng_ok(x, lo, hi):
+                return isinstance(x, int) and lo <= x <= hi
+            ok = rng_ok(a["waste"][0], 1, 67) and rng_ok(a["waste"][1], 1, 128) and rng_ok(a["cleaner"][0], 1, 67) and rng_ok(a["cleaner"][1], 1, 128)
+            ok = ok and a.get("arm", 0) in (0, 1)
+            for f, (lo, hi, dflt) in {"waste_delay": (0, 1000, 500), "cleaner_delay": (0, 1000, 500), "airgap": (0, 100, 10),
+                                      "airgap_speed": (1, 1000, 70), "retract_speed": (1, 100, 30), "fastwash": (0, 1, 1), "low_volume": (0, 1, 0)}.items():
+                ok = ok and rng_ok(a.get(f, dflt), lo, hi)
+            for f, dflt in (("waste_vol", "3"), ("cleaner_vol", "4")):
+                v = num(a.get(f, dflt))
+                ok = ok and v is not None and 0 <= v <= 100
+            tips_ok = all((e[0] == "i" and 1 <= e[1] <= 8) or e[0] == "t" for e in a["tips"])
+            if not (ok and tips_ok):
+                if st["exc"] is None:
+                    bad.append(f"wash-reject: call {i}: evo_wash with an out-of-range parameter was accepted: {cmds}")
+                continue
+            if st["exc"] is not None:
+                bad.append(f"wash-accept: call {i}: valid evo_wash raised {st['exc']}")
+                continue
+            m = re.fullmatch(r'B;Wash\((\d+),(\d+),(\d+),(\d+),(\d+),"([^"]*)",(\d+),"([^"]*)",(\d+),(\d+),(\d+),(\d+),(\d+),(\d+),1000,(\d+)\);', cmds[0]) if len(cmds) == 1 else None
+            if not m:
+                bad.append(f"wash-format: call {i}: {cmds}")
+                continue
+            g = m.groups()
+            want = [a["waste"][0], a["waste"][1] - 1, a["cleaner"][0], a["cleaner"][1] - 1, None, a.get("waste_delay", 500), None, a.get("cleaner_delay", 500),
+                    a.get("airgap", 10), a.get("airgap_speed", 70), a.get("retract_speed", 30), a.get("fastwash", 1), a.get("low_volume", 0), a.get("arm", 0)]
+            for x, w in zip(g[1:], want):
+                if w is not None and int(x) != w:
+                    bad.append(f"wash-order: call {i}: parameter order/values differ: {cmds[0]}")
+                    break
+            for x, f, dflt in ((g[5], "waste_vol", "3"), (g[7], "cleaner_vol", "4")):
+                if abs(Fraction(x) - num(a.get(f, dflt))) > Fraction(1, 20):
+                    bad.append(f"wash-order: call {i}: {f} emitted as {x}")
+            continue
+        if k not in ("evo_asp", "evo_disp"):
+            continue
+        spec = L[op["lw"]]
+        ws = flatF(op["wells"])
+        tips = op["tips"]
+        vol = op["volume"]
+        if vol["t"] == "scalar":
+            vs = [num(vol["v"])] * len(ws)
+        else:
+            vs = [num(v) for v in vol["v"]]
+        tipn = []
+        for e in tips:
+            if (e[0] == "i" and 1 <= e[1] <= 8) or e[0] == "t":
+                tipn.append(e[1])
+            else:
+                tipn.append(None)
+        expressible = (
+            len(ws) == len(tips) == len(vs) and all(valid_well(spec, w) for w in ws) and len({w[1:] for w in ws}) <= 1
+            and all(t is not None for t in tipn) and all(a < b for a, b in zip(tipn, tipn[1:]))
+            and all(ord(a[0]) < ord(b[0]) for a, b in zip(ws, ws[1:]))
+            and all(v is not None and 0 <= v <= mv for v in vs)
+            and isinstance(op["grid"], int) and 1 <= op["grid"] <= 67 and isinstance(op["site"], int) and 1 <= op["site"] <= 128
+            and op.get("arm", 0) in (0, 1) and isinstance(op["lc"], str) and ";" not in op["lc"] and vol["t"] in ("scalar", "list")
+        )
+        cmds = [r for r in st["recs"] if is_script(r)]
+        if not expressible:
+            if cmds:
+                bad.append(f"reject: call {i} ({k}) cannot be expressed as one command (wells {ws}, tips {tips}) but emitted {cmds}")
+            elif st["exc"] is None:
+                bad.append(f"reject: call {i} ({k}) cannot be expressed as one command but returned normally")
+            continue
+        if st["exc"] is not None:
+            if st["exc"] not in ("VolumeOverflowError", "VolumeUnderflowError"):
+                bad.append(f"accept: call {i} ({k}) is expressible but raised {st['exc']}")
+            continue
+        if len(cmds) != 1:
+            bad.append(f"one-command: call {i} ({k}) emitted {len(cmds)} commands")
+            continue
+        d = decode_cmd(cmds[0])
+        if d is None:
+            bad.append(f"format: call {i} ({k}): {cmds[0]}")
+            continue
+        if d["kind"] != ("Aspirate" if k == "evo_asp" else "Dispense") or d["lc"] != op["lc"] or d["arm"] != op.get("arm", 0) \
+                or d["grid"] != op["grid"] or d["site"] != op["site"] - 1:
+            bad.append(f"arguments: call {i} ({k}): command names {d['kind']}/{d['lc']}/{d['arm']}/{d['grid']}/{d['site']}")
+        sel = decode_selection(d["sel"])
+        if sel is None:
+            bad.append(f"selection: call {i}: selection string not decodable")
+            continue
+        rows, cols, grid, _ = sel
+        if (rows, cols) != (spec_rows(spec), spec["cols"]):
+            bad.append(f"selection: call {i}: dimensions {rows}x{cols}")
+            continue
+        selected = [(r, c) for c in range(cols) for r in range(rows) if grid[r][c]]
+        seltips = [t for t in range(8) if (d["mask"] >> t) & 1]
+        if len(selected) != len(seltips):
+            bad.append(f"pairing: call {i}: {len(selected)} wells selected for {len(seltips)} tips")
+            continue
+        # EVOware: selected tips ascending serve selected wells ascending by row
+        change = {}
+        for (r, c), t in zip(sorted(selected), seltips):
+            j = c if spec["kind"] == "trough" else r * spec["cols"] + c
+            change[j] = change.get(j, 0) + d["vols"][t]
+        before = [Fraction(v) for v in prev_lw(obs, i)[op["lw"]]["vols"]]
+        after = vols_of(st, op["lw"])
+        sign = -1 if k == "evo_asp" else 1
+        for j in range(len(before)):
+            tracked = (after[j] - before[j]) * sign
+            if abs(tracked - change.get(j, 0)) > Fraction(len(ws), 200):
+                bad.append(f"agree: call {i} ({k}): the command changes well {j} by {float(change.get(j, 0))} but the tracking applied {float(tracked)}")
+                break
+    return bad[:6]
+
+
+ORACLES = {"C01": oracle_C01, "C02": oracle_C02, "C03": oracle_C03, "C04": oracle_C04, "C05": oracle_C05,
+           "C06": oracle_C06, "C07": oracle_C07, "C09": oracle_C09, "C10": oracle_C10, "C11": oracle_C11}
+ORACLES_PARAMS = {"C09": oracle_C09, "C10": oracle_C10}
+ORACLES_EVOCMD = {"C13": oracle_C13, "C10": oracle_C10, "C02": oracle_C02, "C03": oracle_C03}
